@@ -1,6 +1,7 @@
 """C01 - parsed configuration equals the reference meaning of the text (DESIGN 4/C01)."""
 from props.common import run_with
 from props.parsecommon import parse_step_obs
+from runner import Ob
 
 NEEDS_LEXER = False
 FUNCS = ["cfg_parse_internal (loop body, states 0-9)", "cfg_setopt", "cfg_addval", "cfg_free_value", "cfg_free", "cfg_addopt", "cfg_getopt/cfg_getopt_secidx (leaf lookup)",
@@ -9,6 +10,8 @@ FUNCS = ["cfg_parse_internal (loop body, states 0-9)", "cfg_setopt", "cfg_addval
 
 def build_obs(tier, tables=None):
     obs = parse_step_obs(["CHK_C01"], "c01", states=range(0, 10), callbacks=True, tier=tier)
+    obs.append(Ob("c01-init-defaults", "init_step.c", [], unwind=10, checks="none", must_reach=("end of harness",), timeout=300,
+                  params={"what": "cfg_init_defaults() on int/str/bool/float/no-default/list/single section/multi section declarations, default values symbolic"}))
     if tier != "quick":
         obs += [o for o in parse_step_obs(["CHK_C01"], "c01n3", states=range(0, 10), callbacks=False, tier=tier, ntok=3)]
     return obs
